@@ -28,6 +28,26 @@ func (c *Compiler) Analyse() (declared, bodies, total int) {
 			declNodes = []ast.Node{s.valSpec}
 		case symConst:
 			declNodes = []ast.Node{s.genDecl}
+			// a constant may refer to one declared later in the same block; the front end
+			// declares a block top-down, so such blocks are outside the subset
+			later := map[types.Object]bool{}
+			for _, o := range s.Objs {
+				later[o] = true
+			}
+			for _, sp := range s.genDecl.Specs {
+				vs := sp.(*ast.ValueSpec)
+				for _, v := range vs.Values {
+					ast.Inspect(v, func(n ast.Node) bool {
+						if id, ok := n.(*ast.Ident); ok && later[c.info.Uses[id]] {
+							declOK[i] = false
+						}
+						return true
+					})
+				}
+				for _, n := range vs.Names {
+					delete(later, c.info.Defs[n])
+				}
+			}
 		case symFunc, symMethod:
 			declNodes = []ast.Node{s.funcDecl.Type}
 			if s.funcDecl.Recv != nil {
